@@ -201,6 +201,7 @@ func checkC07(c *Ctx) {
 	c07HeaderValuesValidated(c, fns)
 	c07CloseAfterExit(c)
 	c07BoundedDrain(c, "R-bounded-drain")
+	c05EventConsumed(c, "R-event-consumed") // parser state of a stream reader does not survive the event it belongs to
 	c06IndexGuard(c, fns, "R-index-guard")
 	c07AnswerNonNil(c, fns)
 
